@@ -55,8 +55,7 @@ def cases(tier, seed):
         if h % 11 == 4 and not x0:
             case["via"] = "cli"
             case["o"]["rescale"] = True
-            case["o"]["black"] = []          # (the CLI guesses with csv.Sniffer whether a blacklist file has a header line;
-            #                                   that heuristic is not what this property is about)
+            # (the blacklist goes through a BED file with a header line: one region per blacklisted bin, ending on the bin edge)
         yield "bl.balance", case
     # (2) witness family: uniform filtered marginals S in {4, 16, 64}: exact weights 1/sqrt(S), scale S, converged
     for h in range(90 if tier == "quick" else 1200):
